@@ -23,6 +23,10 @@ type CrashParams struct {
 	Victim  SOp       `json:"victim"`
 	AutoGC  bool      `json:"auto_gc,omitempty"`
 	OnlyK   int       `json:"only_k,omitempty"` // replay: crash points up to this one (0 = all)
+	// Victim2: a second operation, issued by another task at the same time as Victim; the crash
+	// falls before the PairKs[i]-th (modulo) mutating disk operation of the two together
+	Victim2 *SOp     `json:"victim2,omitempty"`
+	PairKs  []uint64 `json:"pair_ks,omitempty"`
 }
 
 type crashProp struct{}
@@ -32,7 +36,7 @@ func init() { register(&crashProp{}) }
 func (p *crashProp) ID() string { return "C10" }
 
 func (p *crashProp) Rule() string {
-	return "scenario = sampled history of completed operations on an OCI layout + one victim operation (Push blob/manifest, Tag, Untag, Delete with/without AutoGC, SaveIndex, GC); the victim's mutating disk operations are counted in a fault-free run (N) and the scenario is re-executed once per k in 1..N with the disk frozen before the k-th one (complete enumeration per victim); evaluations = crash executions; non-trivial = the frozen state differs from both the state before and after the victim, or k>1; distinct = distinct (victim kind, k, on-disk state hash)"
+	return "scenario = sampled history of completed operations on an OCI layout + one victim operation (Push blob/manifest, Tag, Untag, Delete with/without AutoGC, SaveIndex, GC); the victim's mutating disk operations are counted in a fault-free run (N) and the scenario is re-executed once per k in 1..N with the disk frozen before the k-th one (complete enumeration per victim); 30% of the scenarios have two victims issued by two tasks at the same time: the states after neither, either and both (in both orders) are computed by sequential executions, the pair is run without crash and with the disk frozen before 4 drawn mutating operations, each under its own interleaving, and what a new process finds must be one of those states that contains every victim that had returned successfully; evaluations = crash executions; non-trivial = the frozen state differs from both the state before and after the victim, or k>1; distinct = distinct (victim kind, k, on-disk state hash)"
 }
 
 func (p *crashProp) Components() map[string][]string {
@@ -84,6 +88,25 @@ func (p *crashProp) Gen(r *Rand, tier string, idx int) any {
 		cp.Victim = SOp{Op: "saveindex"}
 	default:
 		cp.Victim = SOp{Op: "gc"}
+	}
+	if r.Chance(0.3) {
+		var v SOp
+		switch r.Intn(8) {
+		case 0, 1:
+			v = SOp{Op: "push", Node: r.Intn(nn)}
+		case 2, 3, 4:
+			v = SOp{Op: "tag", Node: r.Intn(nn), Ref: pick(r, refUniverse)}
+		case 5:
+			v = SOp{Op: "untag", Ref: pick(r, refUniverse)}
+		case 6:
+			v = SOp{Op: "delete", Node: r.Intn(nn)}
+		default:
+			v = SOp{Op: "gc"}
+		}
+		cp.Victim2 = &v
+		for i := 0; i < 4; i++ {
+			cp.PairKs = append(cp.PairKs, r.U64())
+		}
 	}
 	return cp
 }
@@ -175,6 +198,9 @@ func (p *crashProp) Run(rc *RunCtx, sc *Scenario) *RunInfo {
 	g := cp.Graph.Build()
 	ctx := context.Background()
 	hashes := map[uint64]bool{}
+	if cp.Victim2 != nil {
+		return p.runPair(rc, sc, &cp, g, info)
+	}
 
 	// one execution: history, then the victim with the disk frozen before its k-th mutating op (k=0: never)
 	run := func(dir string, k int) (res simrt.Result, n int, before *tagState, verr string) {
@@ -330,4 +356,215 @@ func checkLayoutBlobsOnly(dir string, namesToo bool) string {
 		}
 	}
 	return ""
+}
+
+// runPair: two operations in flight when the process dies. What a new process finds must be
+// the state before both, or after either, or after both in one of the two orders - and it must
+// include every operation that had returned before the crash.
+func (p *crashProp) runPair(rc *RunCtx, sc *Scenario, cp *CrashParams, g *Graph, info *RunInfo) *RunInfo {
+	ctx := context.Background()
+	A, B := cp.Victim, *cp.Victim2
+	// states a sequential process reaches, each observed by a fresh process
+	seq := func(name string, ops ...SOp) (st *tagState, verr string) {
+		dir := filepath.Join(rc.DiskDir, name)
+		var res simrt.Result
+		rc.Bubble(func() {
+			s, err := oci.New(dir)
+			if err != nil {
+				verr = "setup: " + err.Error()
+				return
+			}
+			s.AutoGC = cp.AutoGC
+			simos.Reset(simos.Config{Budget: 200000})
+			defer simos.Disable()
+			res = simrt.Run(rc.NextConfig(), func() {
+				for _, op := range cp.History {
+					execOp(ctx, s, g, op)
+				}
+				for _, op := range ops {
+					execOp(ctx, s, g, op)
+				}
+			})
+			rc.Done(res)
+		})
+		if verr == "" && res.Outcome != simrt.OK {
+			verr = "outcome " + string(res.Outcome)
+		}
+		if verr != "" {
+			return nil, verr
+		}
+		st, err := observeTags(dir, g)
+		if err != nil {
+			return nil, "reopen: " + err.Error()
+		}
+		return st, ""
+	}
+	names := []string{"before both", "after " + A.String(), "after " + B.String(), "after " + A.String() + " then " + B.String(), "after " + B.String() + " then " + A.String()}
+	var states []*tagState
+	for i, ops := range [][]SOp{nil, {A}, {B}, {A, B}, {B, A}} {
+		st, verr := seq(fmt.Sprintf("s%d", i), ops...)
+		if verr != "" {
+			info.Outcome = "setup-skip" // endless loops and unreadable layouts without a crash are C09's and C08's subject
+			return info
+		}
+		states = append(states, st)
+	}
+	// the two operations at the same time, the disk frozen before the k-th mutating operation (0: never)
+	run := func(dir string, k int) (res simrt.Result, n int, ret [2]bool, before *tagState, verr string) {
+		rc.Bubble(func() {
+			s, err := oci.New(dir)
+			if err != nil {
+				verr = "setup: " + err.Error()
+				return
+			}
+			s.AutoGC = cp.AutoGC
+			simos.Reset(simos.Config{Budget: 200000})
+			defer simos.Disable()
+			res = simrt.Run(rc.NextConfig(), func() {
+				for _, op := range cp.History {
+					execOp(ctx, s, g, op)
+				}
+				simrt.Observe(func() {
+					before, err = observeTags(dir, g)
+					if err != nil {
+						verr = "layout unreadable before the victims ran: " + err.Error()
+					}
+				})
+				m0 := simos.MutCount()
+				if k > 0 {
+					simos.SetCrashAtMut(k)
+				}
+				done := make(chan struct{}, 2)
+				for i, op := range []SOp{A, B} {
+					i, op := i, op
+					simrt.Go(func() {
+						defer func() { done <- struct{}{} }()
+						r := execOp(ctx, s, g, op)
+						// returned while the process was alive, and reported an effect: an operation that was
+						// refused (Untag of a name the other one has just removed from memory, say) promises none
+						ret[i] = !simos.Snapshot().Frozen && r.Err == ""
+					})
+				}
+				for i := 0; i < 2; i++ {
+					<-done
+					simrt.Yield("join")
+				}
+				n = simos.MutCount() - m0
+			})
+			rc.Done(res)
+		})
+		return
+	}
+	judge := func(dir string, ret [2]bool, what string) *Verdict {
+		if d := checkLayoutBlobsOnly(dir, true); d != "" {
+			return violation("corrupt-blob", "", "%s: %s", what, d)
+		}
+		got, err := observeTags(dir, g)
+		if err != nil {
+			return violation("cannot-reopen", "", "%s: oci.New fails: %v", what, err)
+		}
+		if d := indexEntriesMissing(dir); d != "" {
+			return violation("index-names-missing-blob", "", "%s: %s", what, d)
+		}
+		var allowed []int
+		switch {
+		case ret[0] && ret[1]:
+			allowed = []int{3, 4}
+		case ret[0]:
+			allowed = []int{1, 3, 4}
+		case ret[1]:
+			allowed = []int{2, 3, 4}
+		default:
+			allowed = []int{0, 1, 2, 3, 4}
+		}
+		ok := false
+		var lines []string
+		for _, a := range allowed {
+			if sameTags(got, states[a]) {
+				ok = true
+			}
+			lines = append(lines, fmt.Sprintf("%s: tags=%v resolve=%v", names[a], states[a].Tags, states[a].Resolve))
+		}
+		if !ok {
+			return violation("tags-half-updated", "", "%s (returned before the crash: %s=%v, %s=%v): the tag mapping a new process finds, tags=%v resolve=%v, is none of\n%s", what, A, ret[0], B, ret[1], got.Tags, got.Resolve, strings.Join(lines, "\n"))
+		}
+		for i := range states[0].Exists {
+			everywhere := true
+			for _, a := range allowed {
+				if !states[a].Exists[i] {
+					everywhere = false
+				}
+			}
+			if everywhere && !got.Exists[i] {
+				return violation("lost-content", "", "%s (returned before the crash: %s=%v, %s=%v): node n%d exists in every state the two operations can lead to but is gone", what, A, ret[0], B, ret[1], i)
+			}
+		}
+		return nil
+	}
+	fail := func(j int, v *Verdict) *RunInfo {
+		cp2 := *cp
+		cp2.OnlyK = j
+		sc.Params, _ = json.Marshal(cp2)
+		v.Detail += fmt.Sprintf("\nhistory: %v", opsString(cp.History))
+		info.V = v
+		return info
+	}
+	base := filepath.Join(rc.DiskDir, "p0")
+	res0, n, ret0, before, verr := run(base, 0)
+	info.absorb(res0)
+	info.Outcome = string(res0.Outcome)
+	if res0.Outcome != simrt.OK || verr != "" {
+		info.Outcome = "setup-skip"
+		return info
+	}
+	if !sameTags(before, states[0]) {
+		info.V = violation("harness", "", "history is not reproducible across executions")
+		return info
+	}
+	if v := judge(base, ret0, "both operations ran to their end side by side, no crash"); v != nil {
+		return fail(0, v)
+	}
+	info.Probes["victim_pair"]++
+	info.Probes["victim_"+A.Op]++
+	info.Probes["victim_"+B.Op]++
+	if res0.Choices >= 3 {
+		info.Nontrivial = true
+	}
+	evals := 0
+	hashes := map[uint64]bool{}
+	for j, pk := range cp.PairKs {
+		if n == 0 || (cp.OnlyK != 0 && j+1 > cp.OnlyK) {
+			break
+		}
+		k := 1 + int(pk%uint64(n))
+		dir := filepath.Join(rc.DiskDir, fmt.Sprintf("p%d", j+1))
+		resk, _, ret, beforeK, verr := run(dir, k)
+		evals++
+		info.Steps += resk.Steps
+		info.Faults["crash"]++
+		if verr != "" || resk.Outcome != simrt.OK {
+			info.V = violation("harness", "", "crash run %d (k=%d) did not complete: %s %s", j+1, k, resk.Outcome, verr)
+			return info
+		}
+		if !sameTags(states[0], beforeK) {
+			info.V = violation("harness", "", "history is not reproducible across executions")
+			return info
+		}
+		if ret[0] != ret[1] {
+			info.Probes["crash_with_one_of_two_operations_returned"]++
+		}
+		if v := judge(dir, ret, fmt.Sprintf("%s and %s side by side, process dead before mutating disk operation %d of about %d", A, B, k, n)); v != nil {
+			return fail(j+1, v)
+		}
+		hashes[simrt.Mix(strHash(A.Op+"|"+B.Op), simrt.Mix(uint64(k), dirStateHash(dir)))] = true
+	}
+	info.Probes["crash_executions"] += evals
+	info.Evals = evals + 1
+	for h := range hashes {
+		info.MoreHashes = append(info.MoreHashes, h)
+	}
+	info.StateHash = dirStateHash(base)
+	info.CaseHash = simrt.Mix(info.CaseHash, simrt.Mix(info.StateHash, uint64(n)))
+	info.Sample = map[string]any{"history": opsString(cp.History), "victims": A.String() + " || " + B.String(), "mutating_ops": n, "auto_gc": cp.AutoGC}
+	return info
 }
